@@ -21,7 +21,7 @@ _cand_cache = {}
 
 
 def candidates_for(cfg, uni, P):
-    k = (cfg.name, uni.root.bid, P.path)
+    k = (cfg.name, uni.uid, uni.root.bid, P.path)
     c = _cand_cache.get(k)
     if c is None:
         c = []
